@@ -235,7 +235,11 @@ fn main() {
             let ok: Vec<String> = cands.iter().filter_map(|t| match guarded(|| av::build(ty, t)) {
                 // within the documented limits: the value encodes on its own; PASSWORD-ALGORITHM parameters are absent or
                 // non-empty (Some([]) and None are the same bytes on the wire and decode as None)
-                Ok(Some(a)) if matches!(av::encode_value(&a, &txid, 66000), Ok(Some(_))) => Some(av::render(&a)),
+                // (the implementation under test must not decide which cases are generated: a value that builds is kept even when
+                // it does not encode on its own; the model says whether it is within the documented limits)
+                // it does not encode on its own — except the long strings (more than about 500 bytes: the constructors accept up to
+                // the DECODING limit of 763 bytes, the encoders only 509), which are outside the documented encoding limits
+                Ok(Some(a)) => { let r = av::render(&a); if matches!(av::encode_value(&a, &txid, 66000), Ok(Some(_))) || r.len() <= 1000 { Some(r) } else { None } }
                 _ => None }).filter(|r| !r.contains(".s-") && !r.ends_with(":s-")).collect();
             if ok.is_empty() { continue }
             let tok = rng.pick(&ok).clone();
